@@ -6,7 +6,7 @@ failed transaction.  Mathlib-free.
 import QsmtpModel.Data
 import QsmtpModel.Spec.Ack
 
-namespace QsmtpModel.Data
+namespace QsmtpModel.Data.Ack
 open QsmtpModel QsmtpModel.Queue
 open QsmtpModel.Netio (Rd)
 open QsmtpModel.Spec (firstFault ackExpected)
@@ -869,7 +869,7 @@ theorem hdrChkM_code (c : Cfg) (l : List Byte) (hops hflags code : Nat)
 
 /-! ### the loops: descriptor bookkeeping and reply codes of the exits -/
 
-def Exit.acc : Exit → Acc
+def _root_.QsmtpModel.Data.Exit.acc : Exit → Acc
   | .done _ _ a => a
   | .loopData _ _ _ _ a => a
   | .errWrite _ _ a => a
@@ -1655,4 +1655,4 @@ theorem next_tx_same (env : Session.Env) (c1 c2 : Cfg) (s1 s2 : Session.Sess) (r
   exact rset_same env _ _ v ins a1 a2 b1 b2
     ⟨by rw [a3, b3, hconn.1], by rw [a4, b4, hconn.2.1], by rw [a5, b5, hconn.2.2.1], by rw [a6, b6, hconn.2.2.2]⟩
 
-end QsmtpModel.Data
+end QsmtpModel.Data.Ack
